@@ -244,6 +244,11 @@ def pytdLiteral (ps : List PArg) : PM Ty := do
     | _ => .error (.parse "Literal[...] not supported")
   .ok (joinTypes ms.flatten)
 
+/-- `len(parameters) == 2 and parameters[1] is self.ELLIPSIS`: `tuple[X, ...]` -/
+def homTupleParam : List PArg → Option PArg
+  | [p, .ellipsis] => some p
+  | _ => none
+
 /-- `_parameterized_type(base_type = NamedType bn, parameters)` for everything but `Annotated` -/
 def parameterized (d : Defs) (bn : String) (ps : List PArg) : PM Ty :=
   match special d bn with
@@ -253,12 +258,12 @@ def parameterized (d : Defs) (bn : String) (ps : List PArg) : PM Ty :=
     if ps.any PArg.isLit then .error (.parse "literal constant as a type parameter")
     else match sp with
     | .tuple =>
-      (match ps with
-       | [p, .ellipsis] => do
+      (match homTupleParam ps with
+       | some p => do
          let ps' ← cleanParams bn [p] false
          let ts ← pargTys ps'
          .ok (.generic (.named bn) ts)
-       | _ => do
+       | none => do
          let ps' ← cleanParams bn ps false
          let ts ← pargTys ps'
          .ok (.tuple (.named bn) ts))
@@ -341,11 +346,10 @@ def parseTy (d : Defs) : PyExpr → PM Ty
            .ok (.annotated t' strs)
          | _ => .error (.parse "typing.Annotated takes at least two parameters"))
       | _ =>
-        (match args with
-         | [.emptyTuple] => newType d bn (some [])
-         | _ => do
-           let ps ← parseArgs d args
-           newType d bn (some ps))
+        if args = [.emptyTuple] then newType d bn (some [])
+        else do
+          let ps ← parseArgs d args
+          newType d bn (some ps)
   | .str _ => .error (.unsupported "late annotation")
   | .int _ => .error (.parse "Unexpected literal")
   | .bool _ => .error (.parse "Unexpected literal")
@@ -951,12 +955,15 @@ def normName (tps : List String) (n : String) : Ty :=
   | .typing _ => .named n
   | .dotted _ => .named n
 
-/-- the member list of a normalised union (before the singleton rule): `formSetL` on the normalised
-members, then non-literals, literals, `NoneType` -/
+/-- the member list of a normalised union (before the singleton rule).  Members are identified by how
+they print: duplicates (same printed form) are merged and, in a parameter, the pep484 compat members are
+dropped (`formSetK`); then come the members that are neither `Literal[…]` nor `None`, the literals, and
+`None`. -/
 def unionRes (inParam : Bool) (ms : List Ty) : List Ty :=
-  let ms := formSetL Ty.named inParam ms
-  ms.filter (fun t => !isLitTy t && t ≠ noneTy) ++ ms.filter isLitTy ++
-    (if ms.contains noneTy then [noneTy] else [])
+  let key := tyExpr inParam
+  let ms := formSetK key inParam ms
+  ms.filter (fun t => !isLitE (key t) && key t ≠ .none) ++ ms.filter (fun t => isLitE (key t)) ++
+    ms.filter (fun t => key t = .none)
 
 def normUnion (inParam : Bool) (ms : List Ty) : Ty :=
   match unionRes inParam ms with
@@ -1480,7 +1487,8 @@ def reservedTypeNames : List String :=
 /-- `typing.X` names that do not survive the round trip as themselves -/
 def typingBanned : List String :=
   ["List", "Dict", "Tuple", "Set", "FrozenSet", "Type", "Any", "Optional", "Union", "Intersection", "NoneType",
-   "Final", "TypeAlias", "Self", "nothing"]
+   "Final", "TypeAlias", "Self", "nothing", "tuple", "int", "float", "complex", "bytearray", "bytes",
+   "memoryview"]
 
 /-- … and those that are special as the base of a subscript -/
 def typingBannedBase : List String :=
@@ -1501,10 +1509,15 @@ def fName (g : GCtx) (n : String) : Bool :=
 def fBase (g : GCtx) (n : String) : Bool :=
   fName g n &&
   (match classify n with
-   | .simple x => !g.tps.contains x
-   | .builtin x => !g.tps.contains x
+   | .simple x => !g.tps.contains x && x ≠ "NoneType"
+   | .builtin x => !g.tps.contains x && x ≠ "NoneType"
    | .typing x => !typingBannedBase.contains x
    | .dotted _ => false)
+
+/-- the parameters of `Callable[..., R]` -/
+def anyThenOne : List Ty → Bool
+  | [.any, _] => true
+  | _ => false
 
 def pyDistinct : List Ty → Bool
   | [] => true
@@ -1519,24 +1532,17 @@ def fTy (g : GCtx) (inParam : Bool) : Ty → Bool
   | .late n => fName g n
   | .typeParam n _ => identOK n && noConcat n && fSimple g n && n ≠ "NoneType"
   | .generic b ps =>
-    (match b with
-     | .named n => true && (fBase g n || n = "typing.Callable")
-     | .cls n => true && (fBase g n || n = "typing.Callable")
-     | .late n => true && (fBase g n || n = "typing.Callable")
-     | _ => false) &&
+    isNameTy b && (fBase g (tyBaseName b) || tyBaseName b = "typing.Callable") &&
     mTy g b && !ps.isEmpty && fTys g inParam ps &&
     (if tyExpr false b = .name "tuple" then ps.length = 1
-     else if tyBaseName b = "typing.Callable" then (match ps with | [.any, _] => true | _ => false)
+     else if tyBaseName b = "typing.Callable" then anyThenOne ps
      else true)
-  | .tuple b ps => isNameTy b && mTy g b && tyExpr false b = .name "tuple" && fTys g inParam ps &&
-      (match b with
-       | .named n => fName g n
-       | .cls n => fName g n
-       | .late n => fName g n
-       | _ => false)
+  | .tuple b ps =>
+    isNameTy b && mTy g b && tyExpr false b = .name "tuple" && fTys g inParam ps &&
+      fBase g (tyBaseName b)
   | .callable b ps =>
     isNameTy b && tyBaseName b = "typing.Callable" && mTy g b && !ps.isEmpty && fTys g inParam ps &&
-      ps.dropLast ≠ [.nothing]
+      normTys g.tps inParam ps.dropLast ≠ [.nothing]
   | .union ts =>
     !ts.isEmpty && !ts.any isUnionTy && fTys g inParam ts &&
       pyDistinct (unionRes inParam (normTys g.tps inParam ts))
